@@ -132,6 +132,7 @@ struct Thr {
     int ndt;
     uint64_t cs[64];
     int csn;
+    int atomic_depth;  // inside a shim critical section
 };
 
 enum ObjKind : uint8_t { OK_NONE = 0, OK_ATOMIC, OK_MUTEX, OK_CV, OK_PLAIN, OK_GENERIC, OK_CLOCK };
